@@ -160,3 +160,20 @@ package main
 //@   call Close#2 assert [C18] $0 == builder && ncalls("written") == ncalls("received") && ncalls("closed") == ncalls("opened") && !siteres("select", 1).1
 //@   loop 1 invariant [C18] builder != nil && !isnil(builder.w) && ncalls("written") == ncalls("received") && ncalls("send#1") == ncalls("received") && ncalls("closed") == ncalls("opened")
 //@   check [C18] ncalls("written") == ncalls("received") && ncalls("send#1") == ncalls("received") && ncalls("Close") >= 1 && ncalls("closed") == ncalls("opened")
+
+// Configuration and the connection loop: the writer's output directory is the fixed
+// spool directory, the device identity comes from the device section; every accepted
+// connection is handed to handleConn with that configuration.
+//@ func ParseConfig
+//@   mode permissive
+//@   allocates
+//@   call New#1 given_after $result.1 == nil ==> $result.0 != nil
+//@   check [C18] result1 == nil ==> result0 != nil && result0.OutputDir == "/var/spool/thermal-raw" && ncalls("Unmarshal") == 2
+//@   check [C18] sitehappened("Unmarshal", 1) && sitehappened("Unmarshal", 2) ==> sitearg("Unmarshal", 1, 1) == config.LeptonKey && sitearg("Unmarshal", 2, 1) == config.DeviceKey
+
+//@ func runMain
+//@   mode permissive
+//@   requires frameLogIntervalFirstMin >= 1 && frameLogInterval >= 1
+//@   call ParseConfig#1 given_after $result.1 == nil ==> $result.0 != nil
+//@   call handleConn#1 assert [C18,C14] $1 == conf && ref($0) == ref(siteres("Accept", 1).0)
+//@   loop 1 invariant conf != nil && frameLogIntervalFirstMin >= 1 && frameLogInterval >= 1
